@@ -52,7 +52,17 @@ def try_compile(jp, rec, text, src, key_hint=None, ast=None):
         rec.note("GENERATOR-SLIP (not a verdict): %r is not valid: %s" % (text[:200], why))
         rec.feat("generator-slip")
         return True
-    rec.violation(key_hint or classify(text, o), {"query": text, "source": src, "observed": mon.describe_outcome(o), "ast": jsonable(ast) if ast else None})
+    key = key_hint or classify(text, o)
+    small = text
+    if rec.viol_counts.get(key, 0) == 0 and len(text) > 8:
+        from ..shrink import shrink_text
+
+        def still(t):
+            o2 = mon.observe(jp.compile, t)
+            return o2[0] != "ok" and (key_hint or classify(t, o2)) == key and confirm_valid(t)[0]
+        small = shrink_text(text, still, budget=100)
+    rec.violation(key, {"query": small, "original_query": text if small != text else None, "source": src,
+                        "observed": mon.describe_outcome(mon.observe(jp.compile, small)), "ast": jsonable(ast) if ast and small == text else None})
     return False
 
 
